@@ -127,8 +127,14 @@ def sample_meshes(rnd, count, lengths=(3, 4)):
     return out
 
 
+def weak_hash_events(ctx):
+    """Run in the weak-hash interpreter (harness/weakhash.py): the hardening events, recorded where patterns share a few hash values."""
+    return hardening_events(ctx, True, 1000000)
+
+
 def run(ctx):
     quick = ctx.tier == "quick"
+    weak = util.weak_hash_start(ctx, "c03", "weak_hash_events")
     nsh = 8 if quick else 16
     rnd = util.rng(ctx, 3)
     base = {"MinMesh": 0, "MaxMesh": 2, "BivLen": 3, "MinPerm": 0, "Sample": "{}"}
@@ -234,6 +240,7 @@ def run(ctx):
                 live.pop(j)
     nbefore = len(events)
     events.extend(hardening_events(ctx, quick, idc))
+    events.extend(util.weak_hash_finish(ctx, weak, "c03"))
     ctx.note("hardening_events", len(events) - nbefore)
     v = util.validate_trace(ctx, "Trace_C03", events, ntraces=nmix + nit)
     ctx.case(n=len(events))
